@@ -186,7 +186,8 @@ C14_ARGS = ( PAYLOAD_FN + ["nom::multi::many_m_n / nom_noalloc::many_m_n", "pars
              ["lengths the specification does not produce (type 15: 76..87 and 120..159 bits, type 17: 80..119 bits) are neutral on accept/reject",
               "type 5 'missing DTE' read as: no bit left after the destination characters present (DESIGN.md C14)"])
 C15_SMALL = ["c15_t06_p000", "c15_t06_p001", "c15_t06_p009", "c15_t08_p000", "c15_t08_p002", "c15_t08_p008", "c15_t17_p000", "c15_t17_p003"]
-C15_LARGE = ["c15_t06_p064", "c15_t06_p115", "c15_t06_p119", "c15_t06_p120", "c15_t08_p063", "c15_t08_p119", "c15_t08_p120", "c15_t17_p087", "c15_t17_p120"]
+C15_LARGE = ["c15_t06_p064", "c15_t06_p115", "c15_t06_p119", "c15_t06_p120", "c15_t08_p063", "c15_t08_p119", "c15_t08_p120", "c15_t17_p087", "c15_t17_p120",
+             "c15_t08_p032", "c15_t08_p100", "c15_t08_p117", "c15_t08_p118", "c15_t06_p033", "c15_t06_p100", "c15_t06_p114", "c15_t17_p040", "c15_t17_p086"]
 
 
 def c15(res, tier, seed):
@@ -196,7 +197,8 @@ def c15(res, tier, seed):
     for h in (["c15_t06_p119", "c15_t06_p120", "c15_t08_p063", "c15_t08_p119", "c15_t08_p120", "c15_t17_p087", "c15_t17_p120"] if tier == "quick" else C15_LARGE):
         jobs += K(h, ("std", "none") if tier == "quick" else ALL, timeout=2700)
     run_kani_jobs(res, jobs)
-    res.assumptions += ["data length concrete per harness: 0,1,2,3,8,9, 63 (type 8), 87 (type 17 maximum), 119 and 120 (types 6 and 8; 120 also type 17) - thorough adds 64 and 115; other lengths outside the claim",
+    res.assumptions += ["data length concrete per harness: 0,1,2,3,8,9, 63 (type 8), 87 (type 17 maximum), 119 and 120 (types 6 and 8; 120 also type 17) - thorough adds 32/33, 40, 64, 86, 100, 114, 115, 117, 118; other lengths outside the claim "
+                        "(a symbolic-length harness exhausts memory in CBMC: the copy into a Vec of symbolic length; tried, dropped)",
                         "header and data contents fully symbolic"]
     return {"functions_encoded": ["BinaryAddressedMessage::parse", "BinaryBroadcastMessage::parse", "DgnssBroadcastBinaryMessage::parse",
                                   "Vec<u8>::from(&[u8]) / heapless::Vec::try_from"],
